@@ -238,6 +238,14 @@ def one(ctx, i):
         first_checked = n1 + 1
     else:
         first_checked = 1
+    if rng.random() < 0.4:
+        # the duration written in another time unit than the step (the same physical duration)
+        for op_ in spec['schedule']:
+            if op_['op'] == 'run':
+                us_ = [u_ for u_ in GEN.time_units_for(GEN.qsi(op_['T'])) if u_ != op_['T']['u']]
+                if us_:
+                    op_['T'] = GEN.reexpress(op_['T'], rng.choice(us_))
+        ctx.count('durations_in_another_unit_than_the_step')
     try:
         b0, r0, t0 = execute(spec)
     except Exception as ex:
@@ -246,6 +254,14 @@ def one(ctx, i):
     if any(r['exc'] for r in r0):
         ctx.count('baseline_failed')
         return
+    if t0.n != n + 1 and not any(o_['op'] in ('badrun',) for o_ in spec['schedule']) and abs(t0.n - (n + 1)) > 0 and not spec['schedule'][0].get('T_via'):
+        # without a stop condition the run covers the whole duration: a shorter history "ended before the full duration" with
+        # nothing true at its last instant (also C11's business; here because everything below is relative to this baseline)
+        exp_n = sum(round(GEN.qsi(o_['T']) / GEN.qsi(o_['dt'])) for o_ in spec['schedule'] if o_['op'] == 'run') + 1
+        if t0.n != exp_n:
+            ctx.violation('C16:run-without-stop-condition-ended-early', {'recorded_instants': t0.n, 'expected': exp_n,
+                                                                         'schedule': [(o_['dt'], o_['T']) for o_ in spec['schedule'] if o_['op'] == 'run']}, case)
+            return
     # sensor, operator, placement
     sensors = ['enc', 'tach'] + (['amp'] if spec['motor']['i0'] is not None else [])
     sk = sensors[i % len(sensors)]
